@@ -418,17 +418,21 @@ class Runner:
         # heap writes: direct stores
         writes = []   # (key, ref or None)
         assigned_fields = {f for f, _ in flds}
+        def stable_node(t):
+            if isinstance(t, ast.Name):
+                return t.id not in locs and t.id in st.env
+            if isinstance(t, ast.Attribute):
+                return stable_node(t.value) and t.attr not in assigned_fields and not self._callee_may_write(callees, t.attr)
+            return False
+
         def stable(src):
-            # receiver expression unchanged by the loop: 'self' or a local not assigned in the loop
+            # receiver expression unchanged by the loop: a local not assigned in the loop, or a chain of fields none of which the
+            # loop (or a callee, by its modifies clause) assigns
             try:
                 t = ast.parse(src, mode='eval').body
             except Exception:
                 return False
-            if isinstance(t, ast.Name):
-                return t.id not in locs and t.id in st.env
-            if isinstance(t, ast.Attribute) and isinstance(t.value, ast.Name):
-                return t.value.id not in locs and t.value.id in st.env and t.attr not in assigned_fields and not self._callee_may_write(callees, t.attr)
-            return False
+            return stable_node(t)
         for f, src in sorted(flds):
             if stable(src):
                 v = ex.ev(ast.parse(src, mode='eval').body, st)
@@ -511,7 +515,7 @@ class Runner:
             if c is None:
                 continue
             for m in c.modifies:
-                if m == 'self.' + field or m == '*.' + field:
+                if m.strip().endswith('.' + field):
                     return True
         return False
 
@@ -589,7 +593,12 @@ class Runner:
                             out.append((key, None))
             return out
         recv_ok = 'self' in st.env
-        for m in c.modifies:
+        mods = list(c.modifies)
+        if isinstance(f, ast.Attribute) and c in [v for (k0, _), v in REG.externs.items() if k0 not in ('extern', 'value-call', 'next', 'exhaust', 'value')]:
+            # a method of a typed receiver (stream.write, ...): `self` in its clauses is the receiver expression
+            src = ast.unparse(f.value)
+            mods = [(src + m.strip()[4:]) if m.strip().startswith('self.') or m.strip() == 'self' else m for m in mods]
+        for m in mods:
             m = m.strip()
             if m.startswith('self.') and recv_ok and m.count('.') == 1 and not m.endswith('[]'):
                 out.append(('f:' + m[5:], rv(st.env['self'].t)))
